@@ -379,4 +379,27 @@ theorem updateLoops_get (len : Nat) (prev : Nat → Rat) (loops : List (Rat × N
           prevAfter]
         exact ih _ i h
 
+theorem prevAfter_append_compensated (prev : Nat → Rat) (l : List (Rat × Nat × Bool × List Rat)) (o : Rat) (d : Nat)
+    (ph : List Rat) : prevAfter prev (l ++ [(o, d, false, ph)]) = corrAt o d := by
+  induction l generalizing prev with
+  | nil => simp [prevAfter]
+  | cons e es ih =>
+    obtain ⟨o', d', u', ph'⟩ := e
+    simp only [List.cons_append, prevAfter]
+    exact ih _
+
+/-- when the loop before loop `i + 1` is compensated by the compiler, loop `i + 1` (if compensated too) removes exactly that
+loop's accumulated offset -/
+theorem updateLoops_get_succ (len : Nat) (prev : Nat → Rat) (loops : List (Rat × Nat × Bool × List Rat))
+    (i : Nat) (o o' : Rat) (d d' : Nat) (ph ph' : List Rat)
+    (h0 : loops[i]? = some (o', d', false, ph')) (h1 : loops[i + 1]? = some (o, d, false, ph)) :
+    (updateLoops len prev loops)[i + 1]? = some
+      ((List.range len).map fun j => compensate (ph.getD j 0) (corrAt o d j) (corrAt o' d' j)) := by
+  have := updateLoops_get len prev loops (i + 1) o d false ph h1
+  rw [this]
+  have ht : loops.take (i + 1) = loops.take i ++ [(o', d', false, ph')] := by
+    rw [List.take_succ, h0]
+    rfl
+  simp only [Bool.false_eq_true, if_false, ht, prevAfter_append_compensated]
+
 end SFV.Hw
